@@ -316,7 +316,8 @@ theorem innerSeen_sorted (req : Bool) (pivObs : Bytes) (inner : List Opt) (hs : 
   rw [hf a, hf b]; exact hab
 
 theorem decryptSkips_eq (n : Nat) : (!decryptSkips n) = (!classE n && decide (n ≠ optOscore)) := by
-  simp [decryptSkips, classE, Bool.not_or]
+  simp only [decryptSkips, classE, optOscore]
+  by_cases h9 : n = 9 <;> by_cases h19 : n = 19 <;> by_cases h31 : n = 31 <;> simp [h9, h19, h31, Bool.not_or]
 
 theorem decryptMerge_eq (req : Bool) (pivObs : Bytes) (outer inner : List Opt) (hs : inner.Pairwise (fun a b => a.1 ≤ b.1)) :
     decryptMerge req pivObs outer inner = mergeOpts outer (innerSeen req pivObs inner) := by
